@@ -13,6 +13,7 @@ import (
 	"os"
 	"os/exec"
 	"path/filepath"
+	"runtime/debug"
 	"sort"
 	"strconv"
 	"strings"
@@ -317,6 +318,8 @@ func RunWorker(id, tier string, seed int64, shard, shards int, only, from int64,
 		// safety net only: workloads are built not to need much memory
 		lim := syscall.Rlimit{Cur: 5 << 30, Max: 5 << 30}
 		syscall.Setrlimit(syscall.RLIMIT_AS, &lim)
+		// the collector works harder long before that limit is near
+		debug.SetMemoryLimit(2 << 30)
 	}
 	c := &Ctx{ID: id, Tier: tier, Seed: seed, Shard: shard, Shards: shards, Only: only, From: from, Dir: dir,
 		hashes: map[uint64]struct{}{}, sets: map[string]map[string]struct{}{}, maxSamples: 4}
@@ -641,6 +644,11 @@ func RunParent(id, tier string, seed int64, exe, raceExe string) int {
 						mu.Lock()
 						if v != nil {
 							crashViol = append(crashViol, *v)
+						} else if isCrash && strings.Contains(sig, "out of memory") {
+							// the worker ran into the harness's own address-space limit (RLIMIT_AS) and the case is fine
+							// when run alone: a resource verdict about the harness, not about the property
+							p.Merged.Inconclusive++
+							p.Merged.InconWhy = append(p.Merged.InconWhy, fmt.Sprintf("worker %s ran out of memory under the harness's own address-space limit at case %d; the case finished when run alone", tag, last))
 						} else if isCrash {
 							// not reproduced alone, but a panic is a panic: report with the dump
 							crashViol = append(crashViol, Violation{Sig: sig, Case: last,
